@@ -25,7 +25,9 @@ Arguments Err {A} e.
 Definition bind {A B} (m : res A) (f : A -> res B) : res B :=
   match m with Ok a => f a | Err e => Err e end.
 Notation "'do' x <- m ; f" := (bind m (fun x => f))
-  (at level 200, x pattern, m at level 100, f at level 200).
+  (at level 200, x name, m at level 100, f at level 200).
+Notation "'do' ' p <- m ; f" := (bind m (fun x => match x with p => f end))
+  (at level 200, p pattern, m at level 100, f at level 200).
 
 Definition only_VE {A} (m : res A) : Prop :=
   match m with Ok _ => True | Err e => e = ValueError end.
